@@ -505,7 +505,7 @@ def replay(path):
         binpath = build_harness(prof)
         out = os.path.join(WORK, "replay_rerun.ndjson")
         os.makedirs(WORK, exist_ok=True)
-        record_shard(binpath, hdr["driver"], hdr["seed"], hdr["tier"], 0, 1, out, 600, only=hdr["id"])
+        record_shard(binpath, hdr["driver"], hdr["seed"], hdr["tier"], 0, 1, out, 600, only=hdr["id"], env=hdr.get("modes") or None)
         res2 = validate_trace(out, "replay2")
         log("re-recorded on the current tree: %d events, BAD: %s" % (res2["events"], res2["bads"]))
         rc = 1 if res2["bads"] else 0
